@@ -56,6 +56,8 @@ type Program struct {
 	// RefErrDisp: function id → callee key → error dispositions in the reference tree (errdisp.json)
 	// RefLockCover: function → "pkg.Struct.field" → locks the reference tree holds at every access
 	RefLockCover map[string]map[string][]string
+	// RefRetFields: accessor method → receiver fields its results come from in the reference tree
+	RefRetFields map[string][]string
 	RefErrDisp   map[string]map[string][]string
 }
 
